@@ -136,6 +136,22 @@ def check_json(case) -> Outcome:
             o.violate("json:roundtrip-with-kwargs", {})
     except Exception as e:
         o.violate("json:kwargs-raise:" + type(e).__name__, {"error": repr(e)[:200]})
+    # the default CLI output prints query.string_summary(tree) line by line: one line per node, in pre-order, made of the
+    # whole ancestor type / obfuscation chain and the escaped value - checked here on trees far deeper than scans produce
+    try:
+        from multidecoder.query import string_summary
+
+        lines = string_summary(node)
+        exp_a, exp_b = summary_lines(node, True), summary_lines(node, False)
+        if lines != exp_a and lines != exp_b:
+            if len(lines) != len(exp_a):
+                o.violate("summary:line-count", {"got": len(lines), "nodes": len(exp_a)})
+            else:
+                i = [j for j, (g, e) in enumerate(zip(lines, exp_a)) if g != e][0]
+                depth = exp_a[i].count("/")
+                o.violate("summary:line-content" + (":deep-node" if depth >= 10 else ""), {"got": lines[i][:300], "expected": exp_a[i][:300]})
+    except RecursionError:
+        o.exclude("deep-nesting(K5)")
     o.nontrivial = count(t) >= 3
     if any(ord(ch) > 127 for ch in t[0] + t[2]):
         o.label("non-ascii-label")
